@@ -139,13 +139,22 @@ class StmtMixin:
     def set_hints(self, target, st):
         self.hint_elem = None
         self.hint_dict = None
+        t = None
         if isinstance(target, ast.Name):
             t = self.cur_contract.locals_types.get(target.id)
-            if t is not None:
-                if t.kind == "list":
-                    self.hint_elem = t.args[0]
-                if t.kind == "dict":
-                    self.hint_dict = t
+        elif isinstance(target, ast.Attribute) and isinstance(target.value, ast.Name) and target.value.id in st.locals:
+            b = st.locals[target.value.id]
+            if b.ty.kind == "obj":
+                decl = self.reg.classes.get(b.ty.args[0])
+                if decl is not None:
+                    t = decl["fields"].get(self.mangle(target.attr))
+        if t is not None:
+            if t.kind == "opt":
+                t = t.args[0]
+            if t.kind == "list":
+                self.hint_elem = t.args[0]
+            if t.kind == "dict":
+                self.hint_dict = t
 
     def clear_hints(self):
         self.hint_elem = None
